@@ -58,6 +58,18 @@ pub fn eval_node<F: FnMut(&GraphColoredVertices, &str)>(
     }
     // canonical version of the current formula and canonized mappings of its domains
     let canonized_formula_with_domains = (canonized_form.clone(), canonical_domains.clone());
+    // The key above only mentions the domains of variables occurring in this sub-formula. If some
+    // other variable with a restricted domain is in scope, the current unit set is smaller than the
+    // key suggests, and the result computed here must not be stored under it.
+    let foreign_restriction = eval_context
+        .free_var_domains
+        .iter()
+        .any(|(variable, domain)| domain.is_some() && !renaming.contains_key(variable));
+    // user-provided wild-card sets cannot be recomputed, so they are never evicted from the cache
+    let is_wild_card = matches!(
+        node.node_type,
+        NodeType::Terminal(Atomic::WildCardProp(_))
+    );
 
     if eval_context
         .duplicates
@@ -82,7 +94,7 @@ pub fn eval_node<F: FnMut(&GraphColoredVertices, &str)>(
                 .clone();
 
             // if we already visited all of the duplicates, lets delete the cached value
-            if eval_context.duplicates[&canonized_formula_with_domains] == 0 {
+            if !is_wild_card && eval_context.duplicates[&canonized_formula_with_domains] <= 0 {
                 eval_context
                     .duplicates
                     .remove(&canonized_formula_with_domains);
@@ -103,7 +115,7 @@ pub fn eval_node<F: FnMut(&GraphColoredVertices, &str)>(
             return result.intersect(graph.unit_colored_vertices());
         } else {
             // if the cache does not contain result for this subformula, set insert flag
-            save_to_cache = true;
+            save_to_cache = !foreign_restriction;
         }
     }
 
